@@ -274,7 +274,9 @@ def _derive_orthogonal(ctx, pol, kinds, cls: ClassInfo):
     return None, f'mv kind {k}'
 
 
-def derive_square(ctx, pol, kinds, cls: ClassInfo):
+def derive_square(ctx, pol, kinds, cls: ClassInfo, dtypes: bool = False):
+    """out_structure = in_structure justified?  With ``dtypes`` the leaf dtypes count too (C05); the square *tag* of C08 is
+    about the shape of the matrix only."""
     table = ctx.table
     s = kinds.get(cls.qual)
     k = s.value.k if s is not None and isinstance(s.value, Lin) else None
@@ -288,7 +290,7 @@ def derive_square(ctx, pol, kinds, cls: ClassInfo):
                 if not (isinstance(y, Rec) and y.cls is kind):
                     return False, f'its mv maps a {kind.name} to {getattr(getattr(y, "cls", None), "name", "an array")}: output and input structures differ'
                 promoted = pol.interp.promotions[before:]
-                if promoted and len(y.comps) > 1:
+                if dtypes and promoted and len(y.comps) > 1:
                     return False, (f'its mv rebuilds the {kind.name} through a helper that promotes all components to one dtype ({promoted[0]}): '
                                    'for an input whose components have different dtypes the returned leaf dtypes differ from those of the input structure')
         except (NonLinear, InterpRaise, Incomplete) as exc:
